@@ -457,15 +457,20 @@ func (t *SymbolTable) GetOpt(s Strings) grammar.NonTerminal {
 	t.Lock()
 	defer t.Unlock()
 
+	// The entry of s may have been created for another operator applied to the same strings.
 	e, ok := t.strings.table.Get(s)
-	if ok {
+	if ok && e.Opt != "" {
 		return e.Opt
 	}
 
 	opt := t.mapStringToNoneTerminal(s, "opt")
-	t.strings.table.Put(s, &stringsEntry{
-		Opt: opt,
-	})
+	if ok {
+		e.Opt = opt
+	} else {
+		t.strings.table.Put(s, &stringsEntry{
+			Opt: opt,
+		})
+	}
 
 	return opt
 }
@@ -476,15 +481,20 @@ func (t *SymbolTable) GetGroup(s Strings) grammar.NonTerminal {
 	t.Lock()
 	defer t.Unlock()
 
+	// The entry of s may have been created for another operator applied to the same strings.
 	e, ok := t.strings.table.Get(s)
-	if ok {
+	if ok && e.Group != "" {
 		return e.Group
 	}
 
 	group := t.mapStringToNoneTerminal(s, "group")
-	t.strings.table.Put(s, &stringsEntry{
-		Group: group,
-	})
+	if ok {
+		e.Group = group
+	} else {
+		t.strings.table.Put(s, &stringsEntry{
+			Group: group,
+		})
+	}
 
 	return group
 }
@@ -495,15 +505,20 @@ func (t *SymbolTable) GetStar(s Strings) grammar.NonTerminal {
 	t.Lock()
 	defer t.Unlock()
 
+	// The entry of s may have been created for another operator applied to the same strings.
 	e, ok := t.strings.table.Get(s)
-	if ok {
+	if ok && e.Star != "" {
 		return e.Star
 	}
 
 	star := t.mapStringToNoneTerminal(s, "star")
-	t.strings.table.Put(s, &stringsEntry{
-		Star: star,
-	})
+	if ok {
+		e.Star = star
+	} else {
+		t.strings.table.Put(s, &stringsEntry{
+			Star: star,
+		})
+	}
 
 	return star
 }
@@ -514,15 +529,20 @@ func (t *SymbolTable) GetPlus(s Strings) grammar.NonTerminal {
 	t.Lock()
 	defer t.Unlock()
 
+	// The entry of s may have been created for another operator applied to the same strings.
 	e, ok := t.strings.table.Get(s)
-	if ok {
+	if ok && e.Plus != "" {
 		return e.Plus
 	}
 
 	plus := t.mapStringToNoneTerminal(s, "plus")
-	t.strings.table.Put(s, &stringsEntry{
-		Plus: plus,
-	})
+	if ok {
+		e.Plus = plus
+	} else {
+		t.strings.table.Put(s, &stringsEntry{
+			Plus: plus,
+		})
+	}
 
 	return plus
 }
